@@ -92,6 +92,10 @@ func VH_C07() {
 	var chainAttrs [][]vKV
 	root := New("r").(*logimp).Entry
 	root.SetColorMode(false).SetLevel(InfoLevel)
+	useJSON := vParam("json", 0) == 1 && vBool()
+	if useJSON {
+		root.SetJSONMode(true) // children inherit the format at creation
+	}
 	cur := root
 	for d := 0; d < depth; d++ {
 		if d > 0 {
@@ -146,7 +150,23 @@ func VH_C07() {
 		lg.InfoContext(ctx, "m", args...)
 	}
 	vAssert(len(rec.evs) == 1, "C07: one record")
-	got, ok := vParsePairs(rec.evs[0].P)
+	var got []vKV
+	var ok bool
+	if useJSON {
+		p := rec.evs[0].P
+		doc, okj := vJSONParse(strings.TrimSuffix(p, "\n"))
+		ok = okj
+		for i, k := range doc.keys {
+			if k == "time" || k == "logger" || k == "level" || k == "msg" {
+				continue
+			}
+			n, err := strconv.Atoi(doc.vals[i].str)
+			ok = ok && err == nil
+			got = append(got, vKV{k, n})
+		}
+	} else {
+		got, ok = vParsePairs(rec.evs[0].P)
+	}
 	vAssert(ok, "C07: the record's attributes parse as key=value pairs")
 	// reference
 	var src []vKV
